@@ -29,6 +29,8 @@ def main(argv=None):
         modname = "vf.%s" % prop.lower()
         mod = importlib.import_module(modname)
         if a.replay:
+            if hasattr(mod, "prepare"):
+                mod.prepare(a.tier)
             v = common.replay_file(mod, a.replay)
             if v is not None:
                 print("VIOLATION property=%s replay=%s" % (prop, a.replay))
